@@ -21,7 +21,22 @@ TEMPLATES = [(("sq", "dq"), "SELECT {R} FROM t"), (("sq", "dq"), "SELECT a FROM 
              (("bq",), "SELECT a {R} FROM t"), (("bq",), "SELECT a FROM t {R}"), (("bq",), "SELECT a FROM (SELECT 1) {R}"), (("bq",), "SELECT a FROM t JOIN u {R} ON 1 = 1"),
              (("bq",), "SELECT a FROM t {R} WHERE 1 = 1"), (("bq",), "INSERT INTO t SELECT a {R} FROM u {R}"), (("bq",), "SELECT COUNT(1) {R}, b FROM t GROUP BY b"),
              (("block", "dash", "hash"), "SELECT a {R} FROM t"), (("block", "dash", "hash"), "SELECT a, {R} b FROM t WHERE c = 1"), (("block",), "SELECT f({R}a) FROM t"),
-             (("block", "dash", "hash"), "SELECT a FROM t {R} ; {R} SELECT 2"), (("block", "dash", "hash"), "INSERT INTO t VALUES (1) {R}")]
+             (("block", "dash", "hash"), "SELECT a FROM t {R} ; {R} SELECT 2"), (("block", "dash", "hash"), "INSERT INTO t VALUES (1) {R}"),
+             # hosts whose printer lays its parts out on several lines or brackets / indents them (a printer that post-processes the printed TEXT of a part —
+             # re-indents, strips, re-joins — reaches into the payloads of that part): both CASE forms with ELSE, sub-queries in every position, WITH, set
+             # operations, windows, the clause tails, DDL
+             (("sq", "dq"), "SELECT CASE a WHEN {R} THEN {R} ELSE {R} END AS c FROM t"), (("sq",), "SELECT CASE WHEN a = 1 THEN 2 ELSE {R} END FROM t WHERE CASE b WHEN 1 THEN {R} END = {R}"),
+             (("sq", "dq"), "SELECT (SELECT {R} FROM u WHERE u.a = {R}) AS s FROM t"), (("sq", "dq"), "SELECT a FROM (SELECT {R} AS a FROM u WHERE b = {R}) q"),
+             (("sq", "dq"), "WITH w AS (SELECT {R} AS a FROM u) SELECT a FROM w WHERE a <> {R}"), (("sq", "dq"), "SELECT {R} FROM t UNION ALL SELECT {R} FROM u"),
+             (("sq", "dq"), "SELECT a FROM t WHERE b IN (SELECT c FROM u WHERE d = {R}) AND EXISTS (SELECT 1 FROM v WHERE e = {R})"),
+             (("sq", "dq"), "SELECT f(a) OVER (PARTITION BY {R} ORDER BY {R}) FROM t"), (("sq", "dq"), "SELECT a FROM t WHERE b BETWEEN {R} AND {R}"),
+             (("sq", "dq"), "SELECT a FROM t JOIN u ON t.a = {R} GROUP BY {R} HAVING MAX(b) > {R} ORDER BY {R} DESC"), (("sq", "dq"), "SELECT CAST({R} AS CHAR), IF(a, {R}, {R}) FROM t"),
+             (("sq", "dq"), "INSERT INTO t PARTITION (dt = {R}) SELECT a FROM u WHERE b = {R}"), (("sq", "dq"), "DELETE FROM t WHERE a = {R} OR b IN ({R})"),
+             (("sq", "dq"), "CREATE TABLE t (a varchar(9) DEFAULT {R} COMMENT {R}, b int) ENGINE=InnoDB COMMENT={R}"), (("sq", "dq"), "ALTER TABLE t ADD COLUMN c int COMMENT {R}"),
+             (("bq",), "WITH {R} AS (SELECT 1 AS a) SELECT a FROM {R}"), (("bq",), "SELECT CASE {R} WHEN 1 THEN {R} ELSE {R} END FROM t"),
+             (("bq",), "SELECT (SELECT {R} FROM u) FROM (SELECT {R} FROM v) q"), (("bq",), "CREATE TABLE {R} ({R} int, PRIMARY KEY ({R}))"), (("bq",), "ALTER TABLE {R} DROP COLUMN {R}"),
+             (("bq",), "SELECT a FROM t ORDER BY {R}, {R} DESC"), (("bq",), "SELECT f(a) OVER (PARTITION BY {R} ORDER BY {R}) FROM t GROUP BY {R}"),
+             (("block", "dash", "hash"), "SELECT CASE a {R} WHEN 1 THEN 2 {R} ELSE 3 END FROM t"), (("block", "dash", "hash"), "SELECT a FROM (SELECT 1 {R}) q {R} WHERE a = 1")]
 
 
 def ok_payload(kind, p):
@@ -80,7 +95,7 @@ def run(ctx):
     for (d, kind, tmpl, p1, p2, a, b), (_, xa, _), (_, xb, _), pa, rta in zip(cases, ra, rb, pr, rt):
         comment = kind in ("block", "dash", "hash")
         cls = finding_class(d, [p1, p2])
-        if cls is None and kind == "bq" and any(p.count(".") == 1 for p in (p1, p2)) and any(k in tmpl for k in ("FROM {R}", "UPDATE {R}", "INTO {R}", "{R}(")):
+        if cls is None and kind == "bq" and any(p.count(".") == 1 for p in (p1, p2)) and any(k in tmpl for k in ("FROM {R}", "UPDATE {R}", "INTO {R}", "{R}(", "TABLE {R}")):
             cls = "dot-in-backquoted-table-or-function-name"
         def fail(sig, detail):
             # a pair whose payloads contain what a known pre-pass defect rewrites is attributed to that defect, whatever the symptom
